@@ -47,6 +47,9 @@ GROUPS["bvf_shift"] = G("bvf_shift", BVF_PRELUDE,
 GROUPS["bvf_rot"] = G("bvf_rot", BVF_PRELUDE + ["rot.rs"],
     BVF_BASE + stub(BVF_CORE) + verify(["bvf.rotl", "bvf.rotr"]))
 
+GROUPS["bvf_misc"] = G("bvf_misc", BVF_PRELUDE,
+    BVF_BASE + stub(BVF_CORE) + verify(["bvf.not", "bvf.not_ref", "bvf.shl_in", "bvf.shr_in"]))
+
 # -------------------------------------------------------------------------------------------------
 # property -> jobs
 TYPES6 = ["u8", "u16", "u32", "u64", "u128", "usize"]
